@@ -198,7 +198,24 @@ fn c20(rng: &mut Rng, tier: &str, idx: usize) -> Case {
     // strings: structured mostly-valid + malformed
     let alphabet: Vec<&str> = vec!["0", "1", "9", "5", "H", "P", ":", "+", "-", " ", "é", "日", "😀", "a", "٣", "\u{0}"];
     for _ in 0..per / 2 {
-        let s: String = match rng.below(8) {
+        let s: String = match rng.below(11) {
+            8 => {
+                // sign and zero padding to 8..13 digits, value inside and outside u32
+                let n = if rng.chance(1, 2) { rng.below(4_294_967_296) } else { rng.below(1_000_000_000_000) };
+                let w = rng.range(8, 13) as usize;
+                let sign = *rng.pick(&["+", "+", "", "-"]);
+                format!("HP:{sign}{n:0w$}")
+            }
+            9 | 10 => {
+                // a canonical 10-byte rendering with one or two bytes replaced by an ASCII byte
+                // (the neighbours of the digits `/` and `:` included)
+                let mut b = format!("HP:{:07}", rng.below(10_000_000)).into_bytes();
+                for _ in 0..rng.range(1, 2) {
+                    let pos = rng.below(10) as usize;
+                    b[pos] = *rng.pick(b"/:;+-. 09AHPhp\x00~");
+                }
+                String::from_utf8(b).unwrap_or_default()
+            }
             0 => {
                 // valid rendering, possibly with other prefix
                 let n = rng.below(4_294_967_296);
@@ -222,7 +239,7 @@ fn c20(rng: &mut Rng, tier: &str, idx: usize) -> Case {
             }
             _ => {
                 // random short string over the alphabet: multi-byte chars at every offset
-                let len = rng.below(9);
+                let len = rng.below(13);
                 (0..len).map(|_| *rng.pick(&alphabet)).collect()
             }
         };
